@@ -154,19 +154,13 @@ func execReadLoop(max int, chunks [][]byte) string {
 	cfg.MaxIncomingMessageLength = max
 	cfg.ReadTimeout = 0
 	sc := &scriptConn{chunks: chunks, idle: make(chan struct{}), closed: make(chan struct{})}
+	// nobody takes frames out while readLoop runs: the generated streams hold at most 30 frames, fewer than the
+	// channel's 32 slots, so every hand-over succeeds at once and the frames simply wait in the channel.  readLoop
+	// calls Read again only AFTER it has handed over the frames of the previous read, so when the scripted
+	// connection reports the idle Read, everything the unchanged code delivers is already in the channel
+	// (no timing assumption).
 	msgC := make(chan []byte, msgChanCap)
 	qc := make(chan struct{})
-	var mu sync.Mutex
-	var got []string
-	consumed := make(chan struct{})
-	go func() {
-		defer close(consumed)
-		for d := range msgC {
-			mu.Lock()
-			got = append(got, Hex(d))
-			mu.Unlock()
-		}
-	}()
 	done := make(chan error, 1)
 	go func() {
 		defer func() {
@@ -176,43 +170,41 @@ func execReadLoop(max int, chunks [][]byte) string {
 		}()
 		done <- gnet.VerifReadLoop(cfg, sc, msgC, qc)
 	}()
-	snapshot := func() []string {
-		// everything handed to msgChan so far has been taken by the consumer
-		for i := 0; i < 200; i++ {
-			if len(msgC) == 0 {
-				break
+	take := func() []string {
+		var l []string
+		for {
+			select {
+			case d, ok := <-msgC:
+				if !ok {
+					return l
+				}
+				l = append(l, Hex(d))
+			default:
+				return l
 			}
-			time.Sleep(time.Millisecond)
 		}
-		time.Sleep(2 * time.Millisecond)
-		mu.Lock()
-		defer mu.Unlock()
-		return append([]string{}, got...)
 	}
 	var atIdle []string
 	var endErr error
 	ended := false
 	select {
 	case <-sc.idle:
-		atIdle = snapshot()
+		atIdle = take()
 	case endErr = <-done:
 		ended = true
-		atIdle = snapshot()
-	case <-time.After(10 * time.Second):
+		atIdle = take()
+	case <-time.After(20 * time.Second):
 		return "hang"
 	}
 	sc.Close()
 	if !ended {
 		select {
 		case endErr = <-done:
-		case <-time.After(10 * time.Second):
+		case <-time.After(20 * time.Second):
 			return "hang"
 		}
 	}
-	<-consumed // readLoop closes msgChan when it returns
-	mu.Lock()
-	late := len(got) - len(atIdle)
-	mu.Unlock()
+	late := len(take())
 	if endErr != nil && strings.HasPrefix(endErr.Error(), "panic: ") {
 		return endErr.Error()
 	}
